@@ -310,3 +310,12 @@ PLANS["C17"]["kernel"] = [dict(cases=(20000, 400000))]
 
 for _p in ("C03", "C04", "C09"):
     PLANS[_p]["drive"] = PLANS[_p]["drive"] + [dust_drive()]
+
+# rewards re-bonded right after a slash; long idle periods with failing stubs
+MENU_REWARDS_SLASH = {"items": {"bond": 4, "bond_st": 4, "slash": 5, "accrue": 8, "ugi": 8, "check_slashing": 1, "unbond_b": 2, "unbond_st": 2, "advance": 3, "convert_b_st": 1},
+                      "amax": 400, "dts": [1, 3, 5], "slash_div": [3, 10], "probes": [], "probe_every": 0,
+                      "vary": {"keeper_rate": [[0, 50000000, 0]], "fee": [[0, 5000000, 0], [0, 0, 0]], "thr": [[1, 0, 0]]}}
+MENU_STALE = menu(MENU_HUB, items={"advance_big": 3, "set_ext": 4, "accrue": 1, "ugi": 1})
+PLANS["C06"]["drive"] = PLANS["C06"]["drive"] + [dict(name="rewards-slash", menu=MENU_REWARDS_SLASH, runs=(150, 4000), len=40, consts=dict(MaxBatch=8, NV=2, InitVals=[1, 2]))]
+PLANS["C02"]["drive"] = [dict(name="rewards-slash", menu=MENU_REWARDS_SLASH, runs=(150, 4000), len=40, consts=dict(MaxBatch=8, NV=2, InitVals=[1, 2]))]
+PLANS["C09"]["drive"] = PLANS["C09"]["drive"] + [dict(name="stale", menu=MENU_STALE, runs=(150, 4000), len=40, consts=dict(MaxBatch=8))]
